@@ -91,10 +91,10 @@ func (e *Expr) render(nf int) string {
 	panic("bad expr")
 }
 
-func eN() *Expr          { return &Expr{K: "n"} }
-func eS(i int) *Expr     { return &Expr{K: "s", I: i} }
-func eT(i int) *Expr     { return &Expr{K: "t", I: i} }
-func eC(c int64) *Expr   { return &Expr{K: "c", C: c} }
+func eN() *Expr        { return &Expr{K: "n"} }
+func eS(i int) *Expr   { return &Expr{K: "s", I: i} }
+func eT(i int) *Expr   { return &Expr{K: "t", I: i} }
+func eC(c int64) *Expr { return &Expr{K: "c", C: c} }
 func eB(op string, l, r *Expr) *Expr {
 	return &Expr{K: "bin", Op: op, L: l, R: r}
 }
@@ -114,7 +114,7 @@ type ctxInfo struct {
 	IntOnly bool // the context does arithmetic on the callee's result
 	NonInt  bool // the context yields a non-int value
 	Frames  int64
-	Temps   int // operand slots pending in the caller while the callee runs
+	Temps   int  // operand slots pending in the caller while the callee runs
 	Stop    bool // uses the arm's stop level K
 }
 
@@ -185,23 +185,23 @@ type Arm struct {
 
 // Template is one generated self-recursive function plus its call.
 type Template struct {
-	Fixed     int      `json:"fixed"`      // fixed state parameters after n (0..5)
-	VarN      int      `json:"var_n"`      // -1: not variadic; else number of state values held by ...r
-	Spread    int      `json:"spread"`     // 0: list variadic args; 1: f(.., [..]...); 2: f(.., r...) (r unchanged)
-	Init      []int64  `json:"init"`       // initial state
-	Locals    []*Expr  `json:"locals"`     // extra locals t0.. defined in every iteration
-	Arms      []Arm    `json:"arms"`       // 1..3
-	Mod       int64    `json:"mod"`        // arm selector modulus (>= len(Arms))
-	Style     string   `json:"style"`      // "chain" (if / else if / else) or "seq" (ifs in sequence)
-	BaseUndef int      `json:"base_undef"` // 0: base returns R; 1: bare `return`; 2: `return undefined`
-	BaseVia   bool     `json:"base_via"`   // base returns through a tail call to another function
-	Trace     bool     `json:"trace"`      // order-sensitive side effect before the step
-	Collect   int      `json:"collect"`    // 0 none; 1 closures appended to a variable outside f; 2 to an accumulator parameter
-	Cap       *Expr    `json:"cap"`        // what each collected closure returns (n, a state variable or a local)
-	Bump      bool     `json:"bump"`       // increment the captured state parameter after the capture
-	Place     string   `json:"place"`      // global | nested | nested2 | mapfield | alias | arg
-	N         int64    `json:"n"`          // depth
-	Trailer   bool     `json:"trailer"`    // unreachable `return -777` after the last arm when it cannot fall through
+	Fixed     int     `json:"fixed"`      // fixed state parameters after n (0..5)
+	VarN      int     `json:"var_n"`      // -1: not variadic; else number of state values held by ...r
+	Spread    int     `json:"spread"`     // 0: list variadic args; 1: f(.., [..]...); 2: f(.., r...) (r unchanged)
+	Init      []int64 `json:"init"`       // initial state
+	Locals    []*Expr `json:"locals"`     // extra locals t0.. defined in every iteration
+	Arms      []Arm   `json:"arms"`       // 1..3
+	Mod       int64   `json:"mod"`        // arm selector modulus (>= len(Arms))
+	Style     string  `json:"style"`      // "chain" (if / else if / else) or "seq" (ifs in sequence)
+	BaseUndef int     `json:"base_undef"` // 0: base returns R; 1: bare `return`; 2: `return undefined`
+	BaseVia   bool    `json:"base_via"`   // base returns through a tail call to another function
+	Trace     bool    `json:"trace"`      // order-sensitive side effect before the step
+	Collect   int     `json:"collect"`    // 0 none; 1 closures appended to a variable outside f; 2 to an accumulator parameter
+	Cap       *Expr   `json:"cap"`        // what each collected closure returns (n, a state variable or a local)
+	Bump      bool    `json:"bump"`       // increment the captured state parameter after the capture
+	Place     string  `json:"place"`      // global | nested | nested2 | mapfield | alias | arg
+	N         int64   `json:"n"`          // depth
+	Trailer   bool    `json:"trailer"`    // unreachable `return -777` after the last arm when it cannot fall through
 }
 
 func (tp *Template) nState() int {
